@@ -186,6 +186,8 @@ class Sim:
         self.lazy_justified = 0
         self.cancel_started = None
         self.resub_after_cancel = 0
+        self.window_resub = False
+        self.park_pid = None
         self.after_resub_try = 0
         self.cancel_cmd_step = None
         self.cancel_ids_at_promotion = None
@@ -626,6 +628,10 @@ class Sim:
                     r = self.rounds[pid]
                     r["promoted"] = True
                     self.top_promoted.add(r.get("top"))
+                    if r.get("top") == "userresub_window":
+                        # the holder had left before the command looked: an ordinary resubmission of a complete submission starts here
+                        self.epoch += 1
+                        self.epoch_transition = True
                     if pid == self.cancel_pid and self.cancel_ids_at_promotion is None:
                         self.cancel_ids_at_promotion = list(o["ids"])
                         self.cancel_truth_at_promotion = sorted(self.active_batches())  # what the scheduler really holds for this submission
@@ -1376,10 +1382,13 @@ class Sim:
                             self.log("ENDGAME_STALL", a.pid, a.host, self.eg["at"], "critical point", self.eg["k"])
                             parked.append(a)
                             continue
+                if self.park_pid == a.pid and not self.holds_lock(a, cluster_only=True):
+                    a.parked_until = self.steps + 400
+                    self.park_pid = None
+                if a.role == "py" and a.parked_until > self.steps and not (self.eg and a.top == "usereg"):
+                    parked.append(a)
+                    continue
                 if park_p and a.role == "py":
-                    if a.parked_until > self.steps:
-                        parked.append(a)
-                        continue
                     if a.parked_at != a.n and self.park_point(a.msg) and self.rng.random() < park_p and not self.holds_lock(a, cluster_only=True):
                         a.parked_at = a.n
                         a.parked_until = self.steps + (self.rng.choice([30, 100, 300, 1000]) if not self.holds_lock(a) else self.rng.choice([30, 100, 300]))
@@ -1592,6 +1601,16 @@ class Sim:
             extra = [] if self.scen.get("cancel_complete", True) else ["--no-complete"]
             self.spawn_top("usercancel", ["jade", "cancel-jobs", self.outname] + extra, self.scen.get("cancel_host", "login"))
             return
+        w = self.scen.get("resub_in_completion_window")
+        if w and not self.window_resub and self.obs and self.obs[-1]["complete"] and self.obs[-1]["submitter"] is not None and self.holder is not None and any(b.pid == self.holder[0] for b in self.actors.values()) and self.rng.random() < w:
+            # the completing round has set the flag and still holds the role (it demotes last; in a pipeline it submits the
+            # next stage in between): a user who sees "complete" runs resubmit-jobs right away.  It must not get the role.
+            self.window_resub = True
+            host = self.rng.choice(["login", "login2", self.holder[1]])
+            self.log("RESUBMIT_IN_COMPLETION_WINDOW on", host, "holder", self.holder)
+            self.park_pid = self.holder[0]  # the holder is slow to leave (reports, next pipeline stage): set aside at its next point outside the lock
+            self.spawn_top("userresub_window", ["jade", "resubmit-jobs", self.outname], host)
+            return
         p = u.get("p", 0.01)
         # endgame adversary: a user round promoted while batches are running jobs and nobody holds the role (the window in
         # which "no active batch" and "all results collected" must not be confused)
@@ -1796,7 +1815,10 @@ class Sim:
                 v["text"] = f"after a transient squeue failure ({self.faults_injected[0][-1]}; {len(self.faults_injected)} failed calls): [{v['prop']}:{v['key']}] {v['text']}"
                 v["prop"], v["key"] = "C11", "squeue-failure-not-transient"
         elif self.ff_now and not canceled_run and not scen.get("cycle") and self.cancel_started is None:
-            self.final_ff(final, missing, complete, placed)
+            if "userresub_window" in self.top_promoted:
+                pass  # the holder had already left: an ordinary resubmission followed, which this campaign has no reference model for (C13 does)
+            else:
+                self.final_ff(final, missing, complete, placed)
         elif not self.ff or scen.get("cycle") or (not self.ff_now and self.cancel_started is None):
             self.final_faulty(final, missing, complete)
         if final is not None and missing is not None and not self.status_faults:
@@ -2131,6 +2153,8 @@ class Sim:
             "epochs": self.epoch + 1,
             "killed_nodes": sum(1 for b in self.batches.values() if b.get("killed")),
             "resub_after_cancel": self.resub_after_cancel,
+            "window_resub": bool(self.window_resub),
+            "window_resub_rc": self.top_rc.get("userresub_window"),
             "scancels": len(self.scancelled),
             "canceled": self.canceled_visible_step is not None,
             "cancel_unsubmitted": getattr(self, "cancel_unsubmitted", 0),
